@@ -26,6 +26,7 @@ type provOpts struct {
 	StopAtCalls bool // do not look into call arguments
 	IntoCallees bool // follow static callee results into the callee's return values (depth 2)
 	NoElem      bool
+	WithBase    bool // for field loads through a non-local object also report where the object came from ("base:<leaf>")
 }
 
 type prov struct {
@@ -254,6 +255,13 @@ func (pv *prov) walk(v ssa.Value, pd, d int) {
 					return
 				}
 				pv.add(fieldLeaf(a.X.Type(), a.Field))
+				if pv.opts.WithBase {
+					o2 := pv.opts
+					o2.WithBase = false
+					for _, b := range pv.p.Leaves(a.X, o2) {
+						pv.add("base:" + b)
+					}
+				}
 			case *ssa.FreeVar:
 				if b, ok := theClosures.bind[a]; ok {
 					// captured variable: b is the parent's Alloc
@@ -402,6 +410,7 @@ type Literal struct {
 	Fn     *ssa.Function
 	Fields map[string]ssa.Value // field name -> stored value (last store wins)
 	Stores map[string]*ssa.Store
+	All    map[string][]*ssa.Store // every store per field (a variable assigned in several branches)
 }
 
 // literalsOf finds allocations of struct type pkg.name in fn (with the stores to their fields).
@@ -419,7 +428,7 @@ func literalsOf(fn *ssa.Function, named *types.Named) []*Literal {
 		if _, isPtr := deref(a.Type()).Underlying().(*types.Pointer); isPtr {
 			return
 		}
-		lit := &Literal{Alloc: a, Type: n, Fn: fn, Fields: map[string]ssa.Value{}, Stores: map[string]*ssa.Store{}}
+		lit := &Literal{Alloc: a, Type: n, Fn: fn, Fields: map[string]ssa.Value{}, Stores: map[string]*ssa.Store{}, All: map[string][]*ssa.Store{}}
 		if refs := a.Referrers(); refs != nil {
 			for _, r := range *refs {
 				fa, ok := r.(*ssa.FieldAddr)
@@ -434,6 +443,7 @@ func literalsOf(fn *ssa.Function, named *types.Named) []*Literal {
 					if st, ok := fr.(*ssa.Store); ok && st.Addr == ssa.Value(fa) {
 						lit.Fields[f.Name()] = st.Val
 						lit.Stores[f.Name()] = st
+						lit.All[f.Name()] = append(lit.All[f.Name()], st)
 					}
 				}
 			}
@@ -500,4 +510,65 @@ func leavesWithin(leaves []string, allowed []string) (bad []string) {
 		}
 	}
 	return bad
+}
+
+// fieldStoreLeaves: union of the provenance leaves of every value stored into the field
+// (module-wide), by field key.
+func (p *Prog) fieldStoreLeaves(fk string, opts provOpts) []string {
+	set := map[string]bool{}
+	for _, fn := range p.Funcs {
+		allInstrs(fn, func(ins ssa.Instruction) {
+			if st, ok := ins.(*ssa.Store); ok && fieldKeyOfAddr(st.Addr) == fk {
+				for _, l := range p.Leaves(st.Val, opts) {
+					set[l] = true
+				}
+			}
+		})
+	}
+	var out []string
+	for k := range set {
+		out = append(out, k)
+	}
+	sort.Strings(out)
+	return out
+}
+
+// LeavesExpanded replaces every leaf "field:K" (or "zero:K") with K in expand by the leaves of
+// the values stored into K anywhere in the module (one level, then repeated up to depth 3).
+func (p *Prog) LeavesExpanded(v ssa.Value, opts provOpts, expand ...string) []string {
+	ex := map[string]bool{}
+	for _, e := range expand {
+		ex[e] = true
+	}
+	cur := p.Leaves(v, opts)
+	for round := 0; round < 3; round++ {
+		changed := false
+		set := map[string]bool{}
+		for _, l := range cur {
+			k := ""
+			if strings.HasPrefix(l, "field:") {
+				k = l[6:]
+			} else if strings.HasPrefix(l, "zero:") {
+				k = l[5:]
+			}
+			if k != "" && ex[k] {
+				changed = true
+				delete(ex, k) // expand each field once
+				for _, s := range p.fieldStoreLeaves(k, opts) {
+					set[s] = true
+				}
+				continue
+			}
+			set[l] = true
+		}
+		cur = cur[:0]
+		for k := range set {
+			cur = append(cur, k)
+		}
+		sort.Strings(cur)
+		if !changed {
+			break
+		}
+	}
+	return cur
 }
